@@ -2,6 +2,14 @@
 (* Judge for reads with a reader schema (C08).                                *)
 EXTENDS Naturals, Integers, Sequences, SequencesExt, FiniteSets, TLC, JCommon, AvroResolve
 
+\* (name, value) pairs removed: what reading with named-type reporting returns, minus the reporting
+RECURSIVE StripPairs(_)
+StripPairs(v) ==
+  CASE v.p = "tuple" /\ Len(v.it) = 2 /\ v.it[1].p = "str" -> StripPairs(v.it[2])
+    [] v.p \in {"list", "tuple"} -> [v EXCEPT !.it = MapSeq(StripPairs, v.it)]
+    [] v.p = "dict" -> [v EXCEPT !.vs = MapSeq(StripPairs, v.vs)]
+    [] OTHER -> v
+
 IsResErr(x) == ~x.ok /\ (\E i \in 1..Len(x.exc) : x.exc[i] = "SchemaResolutionError")
 
 \* op = "resolve": c.w, c.r (raw schemas), c.datum, c.bytes (written under w), c.sl [ok, v, pos | exc] schemaless_reader(fo, w, r),
@@ -27,6 +35,10 @@ Judge_resolve(c) ==
            ELSE << Tri("C08.value.schemaless", c.sl.ok /\ VEq(c.sl.v, x.v) /\ c.sl.pos = Len(c.bytes)),
                    Tri("C08.value.container", c.file.ok /\ Len(c.file.recs) = 1 /\ VEq(c.file.recs[1], x.v)),
                    \* with a reader schema equal to the writer schema the result is what reading without one returns
+                   \* the reporting options do not change what is resolved: same value once the (name, value) pairs are taken away
+                   IF "named" \notin DOMAIN c THEN Cl("C08.value.named_options", "skip")
+                   ELSE Tri("C08.value.named_options", /\ c.named.ok /\ VEq(StripPairs(c.named.v), x.v)
+                                                       /\ c.recname.ok /\ VEq(StripPairs(c.recname.v), x.v)),
                    IF c.equal THEN Tri("S.identity", plain.st = "ok" /\ VEq(plain.v, x.v)) ELSE Cl("S.identity", "skip"),
                    Tri("S.alignment", x.p = Len(c.bytes) + 1) >>
 =============================================================================
